@@ -57,6 +57,8 @@ def outcome(s, expr):
 
 
 root = tempfile.mkdtemp(prefix="c38_")
+import atexit as _atexit, shutil as _shutil
+_atexit.register(lambda: _shutil.rmtree(root, ignore_errors=True))     # nothing is left under /tmp
 cwd = os.getcwd()
 os.chdir(root)
 try:
